@@ -336,10 +336,19 @@ pub open spec fn complete_specs(directed: bool) -> GraphSpecs {
 pub open spec fn pair_edges(x: Seq<Vec<i32>>) -> Seq<Edge<i32, ()>> {
     Seq::new(x.len(), |k: int| Edge { u: x[k]@[0], v: x[k]@[1], attributes: None, weight: f64_nan() })
 }
-// what complete_graph builds: new_from_nodes_and_edges(no nodes, one unweighted edge per pair of the complete pair list, create-missing specs)
-pub open spec fn complete_outcome(n: i32, directed: bool, x: Seq<Vec<i32>>, r: Result<Graph<i32, ()>, Error>) -> bool {
-    pairs_complete(n, directed, x) && nfne_rel(Seq::<i32>::empty(), pair_edges(x), complete_specs(directed), r)
+// the node names 0, 1, .., n-1 in that order (none for n <= 0)
+pub open spec fn names_0_to(n: i32) -> Seq<i32> {
+    Seq::new(if n > 0 { n as nat } else { 0 }, |k: int| k as i32)
 }
+// what complete_graph builds: new_from_nodes_and_edges(the nodes 0..n-1, one unweighted edge per pair of the complete pair list, create-missing specs)
+pub open spec fn complete_outcome(n: i32, directed: bool, x: Seq<Vec<i32>>, r: Result<Graph<i32, ()>, Error>) -> bool {
+    pairs_complete(n, directed, x) && nfne_rel(names_0_to(n), pair_edges(x), complete_specs(directed), r)
+}
+// R-ext (A5): `(0..n).map(Node::from_name).collect()` (a range mapped through a function item): ASSUMED to build the nodes named 0..n-1 in order, without attributes
+#[verifier::external_body]
+pub fn vnodes_0_to(n: i32) -> (r: Vec<Arc<Node<i32, ()>>>)
+    ensures node_names_of(r@) =~= names_0_to(n),
+{ (0..n).map(Node::from_name).collect() }
 
 //@ extract fn src/generators/classic.rs complete_graph props=C16,C20
 //@ rewrite
@@ -355,9 +364,9 @@ vcombinations2(num_nodes),
 //@ with
 vpermutations2(num_nodes),
 //@ rewrite
-let nodes = vec![];
+let nodes = (0..num_nodes).map(Node::from_name).collect();
 //@ with
-let nodes: Vec<Arc<Node<i32, ()>>> = vec![];
+let nodes: Vec<Arc<Node<i32, ()>>> = vnodes_0_to(num_nodes);
 //@ rewrite
 let edges = x
         .into_iter()
@@ -385,7 +394,7 @@ let ghost xs = x@;
 //@ before Graph::new_from_nodes_and_edges(nodes, edges, specs).unwrap()
     proof {
         assert(specs == complete_specs(directed));
-        assert(node_names_of(nodes@) =~= Seq::<i32>::empty());
+        assert(node_names_of(nodes@) =~= names_0_to(num_nodes));
         assert(edges_of(edges@) =~= pair_edges(xs));
         assert forall|rr: Result<Graph<i32, ()>, Error>| #[trigger] nfne_rel(node_names_of(nodes@), edges_of(edges@), specs, rr)
             implies rr.is_ok() && complete_outcome(num_nodes, directed, xs, rr) by {
